@@ -342,7 +342,7 @@ func (vc *VC) havocArr(s *State, name string) {
 
 // ---- slices ----
 
-func sliceLen(v *Term) *Term  { return Sel(v, "len") }
+func sliceLen(v *Term) *Term   { return Sel(v, "len") }
 func sliceElems(v *Term) *Term { return Sel(v, "elems") }
 
 func mkSlice(srt *Sort, elems, ln, cp *Term, isnil *Term) *Term {
